@@ -8,12 +8,21 @@ def project_tree(el):
     return [cps(el.tag), cps(el.text or ""), [project_tree(k) for k in el]]
 
 
-def ev_parse(eid, text, want=None):
+def ev_parse(eid, text, want=None, via=None):
+    """via=None: the text through TreeBuilder.feed/close; via=<version>: the text as the body of a file with that version's
+    header through OFXTree.parse (the way files are read)"""
     from ofxtools.Parser import TreeBuilder
     try:
-        b = TreeBuilder()
-        b.feed(text)
-        root = b.close()
+        if via is None:
+            b = TreeBuilder()
+            b.feed(text)
+            root = b.close()
+        else:
+            import io
+            from ofxtools.Parser import OFXTree
+            from ofxtools.header import make_header
+            t = OFXTree()
+            root = t.parse(io.BytesIO(str(make_header(via)).encode("ascii") + text.encode("utf8")))
         if root is None:
             out = {"ok": False, "tree": [], "exc": "returned None"}
         else:
@@ -35,7 +44,9 @@ DATA_ALPHA = "abcXYZ019 .,-_/:;()'\"é€漢😀>]&"
 def rand_data(rnd):
     k = rnd.random()
     if k < 0.2:
-        s = rnd.choice(["x", "1", "a b", "a &amp; b", "&lt;tag&gt;", "1,5", "x>y", "]]", "é€", "a\tb", "line1\nline2", "a  b"])
+        # (interior line separators of every kind are data like any other character)
+        s = rnd.choice(["x", "1", "a b", "a &amp; b", "&lt;tag&gt;", "1,5", "x>y", "]]", "é€", "a\tb", "line1\nline2", "a  b",
+                        "l1\r\nl2", "a\rb", "a\x0bb", "a\x0cb", "a\x1cb\x1dc\x1ed", "a\x85b", "a\u2028b\u2029c", "x\r\n\r\ny"])
     else:
         s = "".join(rnd.choice(DATA_ALPHA) for _ in range(rnd.randrange(1, 20)))
     s = s.strip()
@@ -56,6 +67,12 @@ def rand_tree(rnd, budget, depth=0):
         if budget[0] <= 0:
             break
         kids.append(rand_tree(rnd, budget, depth + 1))
+        if rnd.random() < 0.08 and not kids[-1][2]:
+            # the same data element twice (or three times) in a row, identical or with other data
+            twin = [kids[-1][0], kids[-1][1] if rnd.random() < 0.7 else rand_data(rnd), []]
+            kids.append(list(twin))
+            if rnd.random() < 0.3:
+                kids.append(list(twin))
     return [tag, "", kids]
 
 
